@@ -200,7 +200,7 @@ func (x *fnExec) doCall(st *State, site ssa.Instruction, call *ssa.CallCommon, m
 			if err != nil {
 				fail("%s: call-pre %s.%s: %v", x.fnName(), c.Key, r.Label, err)
 			}
-			x.emit(st, fmt.Sprintf("call-pre.%s.%s#%d", name, r.Label, ord), "call-pre", r.Label, mergeProps(r.Props, x.c.Props), t.S, c.Key+" requires "+r.Src)
+			x.emit(st, fmt.Sprintf("call-pre.%s.%s#%d", name, r.Label, ord), "call-pre", r.Label, unionProps(r.Props, x.allProps()), t.S, c.Key+" requires "+r.Src)
 		}
 	}
 	// snapshot, havoc, assume post
@@ -314,6 +314,18 @@ func shortName(s string) string {
 		s = s[i+1:]
 	}
 	return smtIdent(s)
+}
+
+func unionProps(a, b []string) []string {
+	seen := map[string]bool{}
+	var out []string
+	for _, p := range append(append([]string{}, a...), b...) {
+		if !seen[p] {
+			seen[p] = true
+			out = append(out, p)
+		}
+	}
+	return out
 }
 
 func mergeProps(a, b []string) []string {
